@@ -144,8 +144,9 @@ Inductive strat := StOk | StOkInt | StUser | StBadStr | StBadInt | StBadType.
 Inductive appn := ApStopped | ApRunning | ApUnmanaged | ApUnknown.
 (* namespec: 'app:proc' known / unknown process, 'app:*', bare 'app', and a namespec that is not a string *)
 Inductive procn := PrKnown | PrUnknown | PrStar | PrNone | PrInt.
-(* identifier, nick identifier, stereotype, unknown, empty string, identifier of a STOPPED instance *)
-Inductive instn := InIdent | InNick | InStereo | InUnknown | InEmpty | InStopped.
+(* identifier, nick identifier, stereotype of one instance, unknown, empty string, identifier of a STOPPED instance,
+   stereotype shared by the peer and the STOPPED instance *)
+Inductive instn := InIdent | InNick | InStereo | InUnknown | InEmpty | InStopped | InMulti.
 Inductive progn := PgKnown | PgUnknown.
 Inductive numn := NumOk | NumZero | NumStr.
 Inductive lvln := LvOk | LvOkInt | LvBad | LvBadInt.
@@ -278,10 +279,9 @@ Definition resolve_ns (a : appn) (p : procn) : ns_res :=
 
 (* mapper.filter([identifier]) is not empty *)
 Definition inst_resolves (i : instn) : bool :=
-  match i with InIdent | InNick | InStereo | InStopped => true | InUnknown | InEmpty => false end.
-(* the parameter itself is a key of mapper.instances *)
-Definition inst_is_raw_identifier (i : instn) : bool :=
-  match i with InIdent | InStopped => true | _ => false end.
+  match i with InIdent | InNick | InStereo | InStopped | InMulti => true | InUnknown | InEmpty => false end.
+(* mapper.filter([identifier]) has more than one element *)
+Definition inst_is_multiple (i : instn) : bool := match i with InMulti => true | _ => false end.
 
 Definition result := (node_view * list output * outcome)%type.
 Definition reject (v : node_view) (f : fault) : result := (v, [], Fault f).
@@ -306,11 +306,11 @@ Definition master_set_state (v : node_view) (target : sstate) : result :=
        else serve v [].
 
 (* fsm.on_restart / on_shutdown *)
-Definition fsm_request (v : node_view) (target : sstate) (no_master : rcrash) : result :=
+Definition fsm_request (v : node_view) (target : sstate) : result :=
   match nv_master v with
   | MSelf => master_set_state v target
   | MOther => serve v [ONet]                 (* re-routed to the Master *)
-  | MNone => crash v no_master               (* raise RuntimeError / ValueError *)
+  | MNone => reject v F_BAD_SUPVISORS_STATE  (* the RuntimeError / ValueError of the FSM is caught by the XML-RPC *)
   end.
 
 (* with a strategy parameter: _get_strategy comes right after the state check *)
@@ -338,14 +338,15 @@ Definition body (v : node_view) (r : request) : result :=
   | M_get_instance_state_modes | M_get_instance_info | M_get_all_inner_process_info =>
       with_instance v (rq_inst r) (serve v [])
   | M_get_network_info =>
-      (* mapper.instances[identifier] uses the raw parameter, not the filtered identifier *)
+      (* exactly one instance must be designated (identifier, nick identifier or stereotype) *)
       with_instance v (rq_inst r)
-        (if inst_is_raw_identifier (rq_inst r) then serve v [] else crash v RKeyError)
+        (if inst_is_multiple (rq_inst r) then reject v F_INCORRECT_PARAMETERS else serve v [])
   | M_get_inner_process_info =>
       with_instance v (rq_inst r)
         (with_namespec v (rq_app r) (rq_proc r) (fun res =>
            match res, rq_inst r with
            | NsProc, InStopped => reject v F_FAILED     (* no information from that instance: KeyError -> FAILED *)
+           | NsProc, InMulti => reject v F_FAILED       (* one of the two instances is the STOPPED one *)
            | _, _ => serve v []
            end))
   | M_get_application_info | M_get_application_rules =>
@@ -359,7 +360,7 @@ Definition body (v : node_view) (r : request) : result :=
       with_namespec v (rq_app r) (rq_proc r) (fun res =>
         match res with
         | NsProc => serve v [OSup]
-        | _ => crash v RAttributeError           (* process is None: None.namespec *)
+        | _ => reject v F_BAD_NAME               (* 'group:*': a process name is expected *)
         end)
   | M_start_application =>
       with_strategy v (rq_strat r)
@@ -379,9 +380,10 @@ Definition body (v : node_view) (r : request) : result :=
       else if negb (app_running (rq_app r)) then reject v F_NOT_RUNNING
       else serve v [OStop]
   | M_restart_application =>
-      (* no Managed check in the code *)
       with_strategy v (rq_strat r)
-        (if negb (app_known (rq_app r)) then reject v F_BAD_NAME else serve v [OStop])
+        (if negb (app_known (rq_app r)) then reject v F_BAD_NAME
+         else if negb (app_managed (rq_app r)) then reject v F_NOT_MANAGED
+         else serve v [OStop])
   | M_start_process =>
       with_strategy v (rq_strat r)
         (with_namespec v (rq_app r) (rq_proc r) (fun _ =>
@@ -393,7 +395,7 @@ Definition body (v : node_view) (r : request) : result :=
   | M_start_any_process =>
       with_strategy v (rq_strat r)
         match rq_regex r with
-        | RxBad => crash v RReError                (* re.search on the raw parameter *)
+        | RxBad => reject v F_INCORRECT_PARAMETERS (* re.error is caught *)
         | RxNoMatch => reject v F_FAILED
         | RxMatch => serve v [OStart]
         end
@@ -417,14 +419,15 @@ Definition body (v : node_view) (r : request) : result :=
         match rq_strat r with StUser => serve v [] | _ => serve v [OStop] end
   | M_restart_sequence =>
       if nv_jobs v then reject v F_BAD_SUPVISORS_STATE else serve v [OStart]
-  | M_restart => fsm_request v S_RESTARTING RRuntimeError
-  | M_shutdown => fsm_request v S_SHUTTING_DOWN RValueError
+  | M_restart => fsm_request v S_RESTARTING
+  | M_shutdown => fsm_request v S_SHUTTING_DOWN
   | M_end_sync =>
       match nv_master v with
       | MNone =>
           if negb (nv_user v) then reject v F_NOT_APPLICABLE
           else match rq_inst r with
                | InUnknown => reject v F_BAD_NAME
+               | InMulti => reject v F_INCORRECT_PARAMETERS       (* several identifiers for one Master *)
                | InStopped => reject v F_NOT_RUNNING
                (* '' : election among the RUNNING instances, the local one has the lowest nick identifier;
                   the stereotype resolves to the local instance; identifier / nick designate the peer.
@@ -526,6 +529,24 @@ Definition unknown_name (r : request) : bool :=
 Definition unmanaged_app (r : request) : bool :=
   requires_managed (rq_meth r) && match rq_app r with ApUnmanaged => true | _ => false end.
 
+(* parameters that are names of something else than what the method needs (docstrings): a 'group:*' namespec for
+   start_args is a BAD_NAME; an ill-formed regular expression, or an identifier designating several instances where
+   exactly one is needed (get_network_info, end_sync), are INCORRECT_PARAMETERS *)
+Definition is_start_args (m : meth) : bool := match m with M_start_args => true | _ => false end.
+Definition is_start_any_process (m : meth) : bool := match m with M_start_any_process => true | _ => false end.
+Definition is_get_network_info (m : meth) : bool := match m with M_get_network_info => true | _ => false end.
+Definition is_restart_or_shutdown (m : meth) : bool := match m with M_restart | M_shutdown => true | _ => false end.
+
+Definition group_not_applicable (r : request) : bool :=
+  is_start_args (rq_meth r) && match rq_proc r with PrStar => true | _ => false end.
+Definition bad_regex (r : request) : bool :=
+  is_start_any_process (rq_meth r) && match rq_regex r with RxBad => true | _ => false end.
+Definition ambiguous_instance (r : request) : bool :=
+  (is_get_network_info (rq_meth r) || is_end_sync (rq_meth r)) && inst_is_multiple (rq_inst r).
+(* get_network_info is served for anything that designates exactly one instance, nick identifier included *)
+Definition network_info_designates_one (r : request) : bool :=
+  is_get_network_info (rq_meth r) && inst_resolves (rq_inst r) && negb (inst_is_multiple (rq_inst r)).
+
 (* a name that is not even a string: any clean parameter fault is accepted *)
 Definition hostile_name (r : request) : bool :=
   uses_ns (rq_meth r) && match rq_proc r with PrInt => true | _ => false end.
@@ -562,10 +583,14 @@ Definition spec_ok (v : node_view) (r : request) (o : obs) : bool :=
         then outcome_is oc F_BAD_SUPVISORS_STATE
              || (is_end_sync m && negb (nv_user v) && outcome_is oc F_NOT_APPLICABLE)
         else if bad_strategy r || unknown_name r || unmanaged_app r || hostile_name r
+                || group_not_applicable r || bad_regex r || ambiguous_instance r
         then (bad_strategy r && outcome_is oc F_INCORRECT_PARAMETERS)
              || (unknown_name r && outcome_is oc F_BAD_NAME)
              || (unmanaged_app r && outcome_is oc F_NOT_MANAGED)
+             || (group_not_applicable r && outcome_is oc F_BAD_NAME)
+             || ((bad_regex r || ambiguous_instance r) && outcome_is oc F_INCORRECT_PARAMETERS)
              || (hostile_name r && (outcome_is oc F_BAD_NAME || outcome_is oc F_INCORRECT_PARAMETERS))
+        else if network_info_designates_one r then outcome_eqb oc Served
         else negb (outcome_is oc F_BAD_SUPVISORS_STATE)      (* served in its documented states *)
       else outcome_is oc F_BAD_SUPVISORS_STATE).             (* and only there *)
 
@@ -575,36 +600,11 @@ Definition doc_ok (r : request) (doc_mentions_state_fault : bool) : bool :=
            (match method_class_of (rq_meth r) with Always => false | _ => true end).
 
 (* ------------------------------------------------------------------------------------------------------------ *)
-(* Known-finding classes (each has a _refuted theorem with its witness in proofs/RpcGateProofs.v) *)
-Definition is_restart_application (m : meth) : bool := match m with M_restart_application => true | _ => false end.
-Definition is_get_network_info (m : meth) : bool := match m with M_get_network_info => true | _ => false end.
-Definition is_restart_or_shutdown (m : meth) : bool := match m with M_restart | M_shutdown => true | _ => false end.
-Definition is_start_args (m : meth) : bool := match m with M_start_args => true | _ => false end.
-Definition is_start_any_process (m : meth) : bool := match m with M_start_any_process => true | _ => false end.
-
-(* F19: restart_application on an application that is not Managed *)
-Definition class_restart_application_unmanaged (v : node_view) (r : request) : bool :=
-  is_restart_application (rq_meth r) && match rq_app r with ApUnmanaged => true | _ => false end.
-(* F20: get_network_info with a nick identifier or a stereotype *)
-Definition class_network_info_identifier (v : node_view) (r : request) : bool :=
-  is_get_network_info (rq_meth r)
-  && match rq_inst r with InNick | InStereo => true | _ => false end.
-(* F18: restart / shutdown when no Master is known *)
-Definition class_restart_shutdown_no_master (v : node_view) (r : request) : bool :=
-  is_restart_or_shutdown (rq_meth r) && mrole_eqb (nv_master v) MNone.
-(* start_args with a 'group:*' namespec *)
-Definition class_start_args_group (v : node_view) (r : request) : bool :=
-  is_start_args (rq_meth r) && match rq_proc r with PrStar => true | _ => false end.
-(* start_any_process with an ill-formed regular expression *)
-Definition class_any_process_regex (v : node_view) (r : request) : bool :=
-  is_start_any_process (rq_meth r) && match rq_regex r with RxBad => true | _ => false end.
-(* a namespec that is not a string *)
+(* Known-finding class (its _refuted theorem with the witness is in proofs/RpcGateProofs.v):
+   a namespec that is not a string raises AttributeError in every method that takes a namespec *)
 Definition class_namespec_not_string (v : node_view) (r : request) : bool := hostile_name r.
 
-Definition in_known_class (v : node_view) (r : request) : bool :=
-  class_restart_application_unmanaged v r || class_network_info_identifier v r
-  || class_restart_shutdown_no_master v r || class_start_args_group v r
-  || class_any_process_regex v r || class_namespec_not_string v r.
+Definition in_known_class (v : node_view) (r : request) : bool := class_namespec_not_string v r.
 
 (* ------------------------------------------------------------------------------------------------------------ *)
 (* Cases and evaluators *)
@@ -621,9 +621,4 @@ Definition spec_violations (cases : list case) : list nat :=
 Definition known (cls : node_view -> request -> bool) (cases : list case) : list nat :=
   find_idx (fun c => let '(v, r, _, _) := c in negb (case_ok c) && cls v r) cases.
 
-Definition known_restart_application_unmanaged := known class_restart_application_unmanaged.
-Definition known_network_info_identifier := known class_network_info_identifier.
-Definition known_restart_shutdown_no_master := known class_restart_shutdown_no_master.
-Definition known_start_args_group := known class_start_args_group.
-Definition known_any_process_regex := known class_any_process_regex.
 Definition known_namespec_not_string := known class_namespec_not_string.
